@@ -6,6 +6,7 @@ import (
 	"errors"
 	"fmt"
 	"io"
+	"math"
 	"math/bits"
 	"math/rand"
 	"os"
@@ -33,6 +34,7 @@ func init() { RegisterSub("C09", "merge", RunC09) }
 type c09Col struct {
 	Opt, Desc, NF bool
 	Wrap          int
+	Kind          string // "" = INT(64); otherwise the physical / logical type of the key column, see c09Kinds
 }
 
 func (col c09Col) path() []string {
@@ -103,11 +105,15 @@ func (r c09Row) keyText(ncols int) string {
 func (c *c09Case) canon() string {
 	var sb strings.Builder
 	for _, col := range c.Cols {
+		kind := ""
+		if col.Kind != "" {
+			kind = ",kind=" + col.Kind
+		}
 		if col.Wrap != 0 {
-			fmt.Fprintf(&sb, "col(opt=%v,desc=%v,nf=%v,wrap=%d) ", col.Opt, col.Desc, col.NF, col.Wrap)
+			fmt.Fprintf(&sb, "col(opt=%v,desc=%v,nf=%v,wrap=%d%s) ", col.Opt, col.Desc, col.NF, col.Wrap, kind)
 			continue
 		}
-		fmt.Fprintf(&sb, "col(opt=%v,desc=%v,nf=%v) ", col.Opt, col.Desc, col.NF)
+		fmt.Fprintf(&sb, "col(opt=%v,desc=%v,nf=%v%s) ", col.Opt, col.Desc, col.NF, kind)
 	}
 	fmt.Fprintf(&sb, "mcols=%d storage=%s pagebuf=%d batches=%v dedupe=%v path=%s lists=%v seeks=%v ", c.MCols, c.Storage, c.PageBuf, c.Batches, c.Dedupe, c.Path, c.Lists, c.Seeks)
 	if c.Evolve != 0 {
@@ -176,6 +182,301 @@ func c09Cmp(cols []c09Col, n int, a, b c09Row) int {
 	return 0
 }
 
+// ---------------------------------------------------------------- key column types
+
+// The property speaks of "the declared sorting columns" of any type: the abstract key of a row stays an
+// integer (c09Row.K, the order the oracle and the Lean mirror work with), the column's Kind decides
+// which Parquet type carries it and how. Every encoding is strictly monotone from the integers into
+// the SORT ORDER THE FORMAT DEFINES for the type (signed for INT32/INT64, DATE, TIME, TIMESTAMP and
+// DECIMAL on any physical type; unsigned for UINT; unsigned bytewise for BYTE_ARRAY / FLBA / STRING /
+// UUID; numeric for FLOAT / DOUBLE) and places the keys around 0 on both sides of the type's
+// "other" reading (a negative key is a large unsigned number, the unsigned kinds cross the sign bit,
+// the byte strings cross 0x7f/0x80), so that a comparator arm that reads the wrong signedness, width or
+// direction orders some pair the wrong way.
+var c09Kinds = []string{
+	"p64", "p32", "i32", "u32", "u64", // plain INT64 / INT32, INT(32), UINT(32), UINT(64)
+	"ts-ms", "ts-us", "ts-ns", "date", "time-ms", "time-us", "time-ns",
+	"dec32", "dec64", "decflba", "decbytes", // DECIMAL on INT32, INT64, FLBA(9), BYTE_ARRAY (minimal two's complement)
+	"f32", "f64", // numeric value of the key; key 0 is -0.0 in every other row
+	"uuid", "flba16", "flba8", "bytes", "str", // big-endian offset-binary: unsigned bytewise order = key order
+}
+
+func c09KindNode(kind string) parquet.Node {
+	switch kind {
+	case "":
+		return parquet.Int(64)
+	case "p64":
+		return parquet.Leaf(parquet.Int64Type)
+	case "p32":
+		return parquet.Leaf(parquet.Int32Type)
+	case "i32":
+		return parquet.Int(32)
+	case "u32":
+		return parquet.Uint(32)
+	case "u64":
+		return parquet.Uint(64)
+	case "ts-ms":
+		return parquet.Timestamp(parquet.Millisecond)
+	case "ts-us":
+		return parquet.Timestamp(parquet.Microsecond)
+	case "ts-ns":
+		return parquet.Timestamp(parquet.Nanosecond)
+	case "date":
+		return parquet.Date()
+	case "time-ms":
+		return parquet.Time(parquet.Millisecond)
+	case "time-us":
+		return parquet.Time(parquet.Microsecond)
+	case "time-ns":
+		return parquet.Time(parquet.Nanosecond)
+	case "dec32":
+		return parquet.Decimal(2, 9, parquet.Int32Type)
+	case "dec64":
+		return parquet.Decimal(3, 18, parquet.Int64Type)
+	case "decflba":
+		return parquet.Decimal(1, 20, parquet.FixedLenByteArrayType(9))
+	case "decbytes":
+		return parquet.Decimal(0, 20, parquet.ByteArrayType)
+	case "f32":
+		return parquet.Leaf(parquet.FloatType)
+	case "f64":
+		return parquet.Leaf(parquet.DoubleType)
+	case "uuid":
+		return parquet.UUID()
+	case "flba16":
+		return parquet.Leaf(parquet.FixedLenByteArrayType(16))
+	case "flba8":
+		return parquet.Leaf(parquet.FixedLenByteArrayType(8))
+	case "bytes":
+		return parquet.Leaf(parquet.ByteArrayType)
+	case "str":
+		return parquet.String()
+	}
+	panic("c09: unknown key kind " + kind)
+}
+
+// the keys a kind can carry
+func c09KindRange(kind string) (lo, hi int64) {
+	switch kind {
+	case "p32", "i32", "u32", "date", "time-ms":
+		return -1 << 31, 1<<31 - 1
+	case "dec32":
+		return -999999999, 999999999
+	case "dec64":
+		return -999999999999999999, 999999999999999999
+	case "f32":
+		return -1 << 24, 1 << 24
+	case "f64":
+		return -1 << 53, 1 << 53
+	}
+	return -1 << 63, 1<<63 - 1
+}
+
+// odd: a property of the row that does not take part in the order (used for the sign of a float zero)
+func c09KindValue(kind string, k int64, odd bool) parquet.Value {
+	off := func() []byte { // offset binary, big endian: -2^63 -> 00.., -1 -> 7f ff.., 0 -> 80 00..
+		var b [8]byte
+		u := uint64(k) ^ (1 << 63)
+		for i := range b {
+			b[i] = byte(u >> (56 - 8*i))
+		}
+		return b[:]
+	}
+	switch kind {
+	case "", "p64", "ts-ms", "ts-us", "ts-ns", "time-us", "time-ns", "dec64":
+		return parquet.Int64Value(k)
+	case "u64":
+		return parquet.Int64Value(int64(uint64(k) ^ (1 << 63)))
+	case "p32", "i32", "date", "time-ms", "dec32":
+		return parquet.Int32Value(int32(k))
+	case "u32":
+		return parquet.Int32Value(int32(uint32(int32(k)) ^ (1 << 31)))
+	case "f32":
+		if k == 0 && odd {
+			return parquet.FloatValue(float32(math.Copysign(0, -1)))
+		}
+		return parquet.FloatValue(float32(k))
+	case "f64":
+		if k == 0 && odd {
+			return parquet.DoubleValue(math.Copysign(0, -1))
+		}
+		return parquet.DoubleValue(float64(k))
+	case "decflba": // two's complement, sign extended to 9 bytes
+		b := make([]byte, 9)
+		if k < 0 {
+			b[0] = 0xff
+		}
+		for i := 0; i < 8; i++ {
+			b[1+i] = byte(uint64(k) >> (56 - 8*i))
+		}
+		return parquet.FixedLenByteArrayValue(b)
+	case "decbytes": // minimal two's complement (1..8 bytes): lengths differ between neighbours
+		n := 8
+		for n > 1 {
+			top, next := byte(uint64(k)>>(8*(n-1))), byte(uint64(k)>>(8*(n-2)))
+			if (top == 0 && next&0x80 == 0) || (top == 0xff && next&0x80 != 0) {
+				n--
+				continue
+			}
+			break
+		}
+		b := make([]byte, n)
+		for i := range b {
+			b[i] = byte(uint64(k) >> (8 * (n - 1 - i)))
+		}
+		return parquet.ByteArrayValue(b)
+	case "uuid", "flba16": // the key straddles the two 64-bit halves compareBE128 reads
+		b := make([]byte, 16)
+		copy(b[4:], off())
+		return parquet.FixedLenByteArrayValue(b)
+	case "flba8":
+		return parquet.FixedLenByteArrayValue(off())
+	case "bytes", "str":
+		return parquet.ByteArrayValue(off())
+	}
+	panic("c09: unknown key kind " + kind)
+}
+
+func c09KindKey(kind string, v parquet.Value) (int64, error) {
+	want := parquet.Int64
+	switch kind {
+	case "p32", "i32", "u32", "date", "time-ms", "dec32":
+		want = parquet.Int32
+	case "f32":
+		want = parquet.Float
+	case "f64":
+		want = parquet.Double
+	case "decflba", "uuid", "flba16", "flba8":
+		want = parquet.FixedLenByteArray
+	case "decbytes", "bytes", "str":
+		want = parquet.ByteArray
+	}
+	if v.Kind() != want {
+		return 0, fmt.Errorf("value of kind %v in a column of kind %q", v.Kind(), kind)
+	}
+	unoff := func(b []byte) (int64, error) {
+		if len(b) != 8 {
+			return 0, fmt.Errorf("byte string key of %d bytes", len(b))
+		}
+		var u uint64
+		for _, x := range b {
+			u = u<<8 | uint64(x)
+		}
+		return int64(u ^ (1 << 63)), nil
+	}
+	switch kind {
+	case "", "p64", "ts-ms", "ts-us", "ts-ns", "time-us", "time-ns", "dec64":
+		return v.Int64(), nil
+	case "u64":
+		return int64(uint64(v.Int64()) ^ (1 << 63)), nil
+	case "p32", "i32", "date", "time-ms", "dec32":
+		return int64(v.Int32()), nil
+	case "u32":
+		return int64(int32(uint32(v.Int32()) ^ (1 << 31))), nil
+	case "f32":
+		f := v.Float()
+		if float32(int64(f)) != f {
+			return 0, fmt.Errorf("float key %v", f)
+		}
+		return int64(f), nil
+	case "f64":
+		f := v.Double()
+		if float64(int64(f)) != f {
+			return 0, fmt.Errorf("double key %v", f)
+		}
+		return int64(f), nil
+	case "decflba", "decbytes":
+		b := v.ByteArray()
+		if len(b) == 0 || len(b) > 9 || (kind == "decflba" && len(b) != 9) {
+			return 0, fmt.Errorf("decimal key of %d bytes", len(b))
+		}
+		k := int64(0)
+		if b[0]&0x80 != 0 {
+			k = -1
+		}
+		for _, x := range b {
+			k = k<<8 | int64(x)
+		}
+		return k, nil
+	case "uuid", "flba16":
+		b := v.ByteArray()
+		if len(b) != 16 || !bytes.Equal(b[:4], make([]byte, 4)) || !bytes.Equal(b[12:], make([]byte, 4)) {
+			return 0, fmt.Errorf("16-byte key % x", b)
+		}
+		return unoff(b[4:12])
+	case "flba8", "bytes", "str":
+		return unoff(v.ByteArray())
+	}
+	return 0, fmt.Errorf("unknown key kind %q", kind)
+}
+
+// c09TypeKeys gives the key columns of one case in `one` types other than INT(64) (says whether it did).
+// The keys of a generated case are small numbers and fit every kind.
+func c09TypeKeys(r *rand.Rand, cols []c09Col, one int) bool {
+	if r.Intn(one) != 0 {
+		return false
+	}
+	for j := range cols {
+		if j == 0 || r.Intn(3) != 0 {
+			cols[j].Kind = c09Kinds[r.Intn(len(c09Kinds))]
+		}
+	}
+	return true
+}
+
+// c09CenterKeys shifts every key column so that its values lie on both sides of 0 (the order of the
+// rows does not change)
+func c09CenterKeys(inputs [][]c09Row) {
+	for j := 0; j < 3; j++ {
+		lo, hi, any := int64(0), int64(0), false
+		for _, in := range inputs {
+			for _, row := range in {
+				if row.Null[j] {
+					continue
+				}
+				if !any || row.K[j] < lo {
+					lo = row.K[j]
+				}
+				if !any || row.K[j] > hi {
+					hi = row.K[j]
+				}
+				any = true
+			}
+		}
+		mid := lo + (hi-lo)/2
+		for _, in := range inputs {
+			for s := range in {
+				if !in[s].Null[j] {
+					in[s].K[j] -= mid
+				}
+			}
+		}
+	}
+}
+
+func c09KeySig(cols []c09Col) string {
+	parts := strings.Split(c09KindsText(cols), ",")
+	for i, col := range cols {
+		if col.Desc {
+			parts[i] += ":desc"
+		} else {
+			parts[i] += ":asc"
+		}
+	}
+	return strings.Join(parts, ",")
+}
+
+func c09KindsText(cols []c09Col) string {
+	parts := make([]string, len(cols))
+	for i, col := range cols {
+		parts[i] = col.Kind
+		if col.Kind == "" {
+			parts[i] = "int64"
+		}
+	}
+	return strings.Join(parts, ",")
+}
+
 // ---------------------------------------------------------------- parquet plumbing
 
 func c09Schema(cols []c09Col) *parquet.Schema { return c09SchemaL(cols, false) }
@@ -194,7 +495,7 @@ func c09SchemaE(cols []c09Col, lists, extra bool) *parquet.Schema {
 		g["a_list"] = parquet.Repeated(parquet.Int(32))
 	}
 	for j, col := range cols {
-		var n parquet.Node = parquet.Int(64)
+		n := c09KindNode(col.Kind)
 		if col.Opt {
 			n = parquet.Optional(n)
 		}
@@ -285,7 +586,7 @@ func c09ToRowE(cols []c09Col, r c09Row, lists, extra bool) parquet.Row {
 		case r.Null[j] && col.Opt:
 			row = append(row, parquet.Value{}.Level(0, maxDef-1, j+off))
 		default:
-			row = append(row, parquet.Int64Value(r.K[j]).Level(0, maxDef, j+off))
+			row = append(row, c09KindValue(col.Kind, r.K[j], (r.Inp+r.Seq)&1 == 1).Level(0, maxDef, j+off))
 		}
 	}
 	row = append(row, parquet.Int32Value(r.Inp).Level(0, 0, len(cols)+off))
@@ -296,10 +597,10 @@ func c09ToRowE(cols []c09Col, r c09Row, lists, extra bool) parquet.Row {
 	return row
 }
 
-func c09FromRow(ncols int, row parquet.Row) (c09Row, error) { return c09FromRowL(ncols, row, false) }
+func c09FromRow(cols []c09Col, row parquet.Row) (c09Row, error) { return c09FromRowL(cols, row, false) }
 
-func c09FromRowL(ncols int, row parquet.Row, lists bool) (c09Row, error) {
-	return c09FromRowW(ncols, 0, 0, row, lists)
+func c09FromRowL(cols []c09Col, row parquet.Row, lists bool) (c09Row, error) {
+	return c09FromRowW(cols, 0, row, lists)
 }
 
 // bit j of the result: key column j sits in an optional group
@@ -313,8 +614,9 @@ func c09WrapMask(cols []c09Col) (m uint) {
 }
 
 // evolve != 0: the rows have the column z_new; it is null in the rows of the inputs named by evolve
-func c09FromRowW(ncols int, wrapped, evolve uint, row parquet.Row, lists bool) (c09Row, error) {
+func c09FromRowW(cols []c09Col, evolve uint, row parquet.Row, lists bool) (c09Row, error) {
 	var r c09Row
+	ncols, wrapped := len(cols), c09WrapMask(cols)
 	off, extra := 0, 0
 	if evolve != 0 {
 		extra = 1
@@ -344,7 +646,11 @@ func c09FromRowW(ncols int, wrapped, evolve uint, row parquet.Row, lists bool) (
 				r.Null[c] = true
 				r.GNull[c] = wrapped&(1<<c) != 0 && v.DefinitionLevel() == 0
 			} else {
-				r.K[c] = v.Int64()
+				k, kerr := c09KindKey(cols[c].Kind, v)
+				if kerr != nil {
+					return r, fmt.Errorf("key column %d: %v", c, kerr)
+				}
+				r.K[c] = k
 			}
 		case c == ncols:
 			r.Inp = v.Int32()
@@ -454,7 +760,7 @@ func c09Drain(c *c09Case, rr parquet.RowReader, limit int) ([]c09Row, [][2]int, 
 			return out, calls, fmt.Errorf("ReadRows returned n=%d for a buffer of %d", n, b)
 		}
 		for _, row := range buf[:n] {
-			r, derr := c09FromRowW(len(c.Cols), c09WrapMask(c.Cols), c.Evolve, row, c.Lists)
+			r, derr := c09FromRowW(c.Cols, c.Evolve, row, c.Lists)
 			if derr != nil {
 				return out, calls, derr
 			}
@@ -513,7 +819,7 @@ func c09DrainSeek(c *c09Case, rows parquet.Rows, limit int) (out []c09Pos, eofAt
 				return
 			}
 			for _, row := range buf[:n] {
-				rw, derr := c09FromRowW(len(c.Cols), c09WrapMask(c.Cols), c.Evolve, row, c.Lists)
+				rw, derr := c09FromRowW(c.Cols, c.Evolve, row, c.Lists)
 				if derr != nil {
 					r.err = derr
 					return
@@ -648,20 +954,28 @@ var c09StrictCuts = sync.OnceValue(func() string {
 })
 
 // page statistics of the sorting columns of a row group, in the format of the driver's merge.plan
-func c09TargetText(rg parquet.RowGroup, ncols int, off int) (string, bool) {
+func c09TargetText(rg parquet.RowGroup, cols []c09Col, off int) (string, bool) {
+	ncols := len(cols)
 	var sb strings.Builder
 	fmt.Fprintf(&sb, "%d", rg.NumRows())
 	if rg.NumRows() == 0 {
 		return sb.String(), true
 	}
 	chunks := rg.ColumnChunks()
+	bad := false
+	kind := ""
 	val := func(v parquet.Value) string {
 		if v.IsNull() {
 			return "n"
 		}
-		return strconv.FormatInt(v.Int64(), 10)
+		k, err := c09KindKey(kind, v)
+		if err != nil {
+			bad = true
+		}
+		return strconv.FormatInt(k, 10)
 	}
 	for j := 0; j < ncols; j++ {
+		kind = cols[j].Kind
 		ci, err := chunks[j+off].ColumnIndex()
 		if err != nil || ci == nil {
 			return "", false
@@ -701,7 +1015,7 @@ func c09TargetText(rg parquet.RowGroup, ncols int, off int) (string, bool) {
 			}
 		}
 	}
-	return sb.String(), true
+	return sb.String(), !bad
 }
 
 // ---------------------------------------------------------------- nested merges
@@ -972,7 +1286,7 @@ func c09Run(c *c09Case) (out []c09Row, kind string, calls [][2]int, plan string,
 			if c.Lists {
 				off = 1
 			}
-			parts[i], ok = c09TargetText(rg, c.sortCols(), off)
+			parts[i], ok = c09TargetText(rg, c.Cols[:c.sortCols()], off)
 			if !ok {
 				break
 			}
@@ -1382,6 +1696,16 @@ func c09Check(ctx *core.Ctx, c *c09Case, p *c09Pending) {
 		return map[string]any{"case": cs, "plan": kind, "output": strings.Join(o, " "), "calls": fmt.Sprint(calls[:min(len(calls), 50)])}
 	}
 	sig := fmt.Sprintf(" path=%s", c.Path)
+	typed := false
+	for j, col := range c.Cols {
+		typed = typed || col.Kind != ""
+		ctx.Hist("key-type", c09KindsText(c.Cols[j:j+1])+map[bool]string{false: "/asc", true: "/desc"}[col.Desc])
+	}
+	if typed {
+		// keys of other types than INT(64): the types and directions of the merge's sorting columns are part
+		// of the situation (the comparator has one arm per type and direction)
+		sig = " keys=" + c09KeySig(c.Cols[:c.sortCols()]) + sig
+	}
 	if c.DedupeIn {
 		sig = " inner-dedupe" + sig
 	}
@@ -1473,6 +1797,9 @@ func c09Check(ctx *core.Ctx, c *c09Case, p *c09Pending) {
 	if len(c.Seeks) > 0 {
 		ctx.Hist("seeks", strconv.Itoa(len(c.Seeks)))
 		if key, what := c09SeekOracle(c, c.seekOut, c.seekEOF); key != "" {
+			if typed {
+				key += " keys=" + c09KeySig(c.Cols[:c.sortCols()])
+			}
 			ctx.Fail("L1", key+" plan="+kind, what, detail())
 		}
 		return
@@ -1725,6 +2052,7 @@ func c09GenCase(r *rand.Rand) *c09Case {
 	c09WrapKeys(r, c)
 	c09EvolveSchema(r, c)
 	c09GenSeeks(r, c)
+	c09TypeKeys(r, c.Cols, 3)
 	return c
 }
 
@@ -1818,6 +2146,9 @@ func c09GenRefineCase(r *rand.Rand) *c09Case {
 	c09WrapKeys(r, c)
 	c09EvolveSchema(r, c)
 	c09GenSeeks(r, c)
+	if c09TypeKeys(r, c.Cols, 3) {
+		c09CenterKeys(c.Inputs)
+	}
 	return c
 }
 
@@ -1897,6 +2228,9 @@ func c09GenCompoundRefineCase(r *rand.Rand) *c09Case {
 	c09WrapKeys(r, c)
 	c09EvolveSchema(r, c)
 	c09GenSeeks(r, c)
+	if c09TypeKeys(r, c.Cols, 3) {
+		c09CenterKeys(c.Inputs)
+	}
 	return c
 }
 
@@ -1967,6 +2301,7 @@ func c09GenNestedCase(r *rand.Rand, big bool) *c09Case {
 	c.Nest = tree.text()
 	c.Evolve = 0
 	c09EvolveSchema(r, c)
+	c09TypeKeys(r, c.Cols, 3)
 	return c
 }
 
@@ -2106,7 +2441,7 @@ func c09L2Run(c *c09L2Case) (req, want string, rows []c09Row, err error) {
 			sb.WriteByte('-')
 		}
 		for j, row := range buf[:max(n, 0)] {
-			r, derr := c09FromRow(1, row)
+			r, derr := c09FromRow(c09L2Cols, row)
 			if derr != nil {
 				return "", "", rows, derr
 			}
@@ -2321,6 +2656,7 @@ func c09GenL2C(r *rand.Rand) *c09L2CCase {
 		c.refills = append(c.refills, sizes)
 	}
 	c.batches = c09GenBatches(r)
+	c09TypeKeys(r, c.cols, 2)
 	return c
 }
 
@@ -2366,7 +2702,7 @@ func c09L2CCheck(ctx *core.Ctx, c *c09L2CCase, p *c09Pending) {
 				sb.WriteByte('-')
 			}
 			for j, row := range buf[:max(n, 0)] {
-				rw, derr := c09FromRowL(len(c.cols), row, c.lists)
+				rw, derr := c09FromRowL(c.cols, row, c.lists)
 				if derr != nil {
 					return derr
 				}
@@ -2399,6 +2735,12 @@ func c09L2CCheck(ctx *core.Ctx, c *c09L2CCase, p *c09Pending) {
 	}
 	oc := &c09Case{Cols: c.cols, MCols: len(c.cols), Path: "readers", Inputs: c.inputs}
 	if key, what := c09Oracle(oc, rows); key != "" {
+		for _, col := range c.cols {
+			if col.Kind != "" {
+				key += " keys=" + c09KeySig(c.cols)
+				break
+			}
+		}
 		ctx.Fail("L1", key+" path=chunked-readers-compound", what, map[string]any{"case": text, "output": want})
 	}
 	p.reqs = append(p.reqs, req)
@@ -2420,6 +2762,9 @@ func c09CmpChecks(ctx *core.Ctx, r *rand.Rand, d *drv.Driver, p *c09Pending, n i
 			if r.Intn(3) != 0 {
 				col.Opt, col.NF = true, r.Intn(2) == 0
 			}
+			if r.Intn(3) != 0 {
+				col.Kind = c09Kinds[r.Intn(len(c09Kinds))]
+			}
 			cols = append(cols, col)
 		}
 		mk := func() c09Row {
@@ -2432,6 +2777,16 @@ func c09CmpChecks(ctx *core.Ctx, r *rand.Rand, d *drv.Driver, p *c09Pending, n i
 					if r.Intn(8) == 0 {
 						row.K[j] = []int64{-1 << 63, 1<<63 - 1, -1 << 31, 1 << 31}[r.Intn(4)]
 					}
+					if col.Kind != "" && r.Intn(3) == 0 {
+						// the edges of the kind, byte and word boundaries of its encodings
+						lo, hi := c09KindRange(col.Kind)
+						row.K[j] = []int64{lo, lo + 1, hi - 1, hi, -129, -128, -127, 127, 128, 255, 256, -256, -257, -32769, 32768, 65536, -65537, 1 << 23, -1 << 23}[r.Intn(19)]
+					}
+					if lo, hi := c09KindRange(col.Kind); row.K[j] < lo {
+						row.K[j] = lo
+					} else if row.K[j] > hi {
+						row.K[j] = hi
+					}
 				}
 			}
 			return row
@@ -2440,8 +2795,22 @@ func c09CmpChecks(ctx *core.Ctx, r *rand.Rand, d *drv.Driver, p *c09Pending, n i
 		lists := r.Intn(2) == 0
 		a.Inp, a.Seq, b.Inp, b.Seq = int32(r.Intn(9)), int32(r.Intn(50)), int32(r.Intn(9)), int32(r.Intn(50))
 		schema := c09SchemaL(cols, lists)
-		cmp := schema.Comparator(c09Sorting(cols, ncols)...)
-		got := cmp(c09ToRowL(cols, a, lists), c09ToRowL(cols, b, lists))
+		canon := fmt.Sprintf("merge.cmp %s %s %s", c09SpecText(cols), a.keyText(ncols), b.keyText(ncols))
+		got, panicked := 0, ""
+		func() {
+			defer func() {
+				if q := recover(); q != nil {
+					panicked = c09ErrClass(fmt.Errorf("panic: %v", q))
+				}
+			}()
+			cmp := schema.Comparator(c09Sorting(cols, ncols)...)
+			got = cmp(c09ToRowL(cols, a, lists), c09ToRowL(cols, b, lists))
+		}()
+		if panicked != "" {
+			ctx.Case(canon+fmt.Sprint(cols, lists, a.Inp, a.Seq, b.Inp, b.Seq), ncols >= 2)
+			ctx.Fail("L1", fmt.Sprintf("comparator-panics lists=%v %s", lists, panicked), "schema.Comparator panics on two rows of its schema", map[string]any{"case": canon, "cols": fmt.Sprint(cols), "lists": lists, "list-a": fmt.Sprint(c09List(a.Inp, a.Seq)), "list-b": fmt.Sprint(c09List(b.Inp, b.Seq))})
+			continue
+		}
 		sign := func(x int) int {
 			if x < 0 {
 				return -1
@@ -2450,10 +2819,19 @@ func c09CmpChecks(ctx *core.Ctx, r *rand.Rand, d *drv.Driver, p *c09Pending, n i
 			}
 			return 0
 		}
-		canon := fmt.Sprintf("merge.cmp %s %s %s", c09SpecText(cols), a.keyText(ncols), b.keyText(ncols))
 		ctx.Case(canon+fmt.Sprint(cols, lists, a.Inp, a.Seq, b.Inp, b.Seq), ncols >= 2)
 		if want := c09Cmp(cols, ncols, a, b); sign(got) != want {
-			ctx.Fail("L1", fmt.Sprintf("comparator-order lists=%v", lists), "schema.Comparator orders two rows against the declared sorting columns", map[string]any{"case": canon, "cols": fmt.Sprint(cols), "lists": lists, "list-a": fmt.Sprint(c09List(a.Inp, a.Seq)), "list-b": fmt.Sprint(c09List(b.Inp, b.Seq)), "impl": got, "declared": want})
+			key := fmt.Sprintf("comparator-order lists=%v", lists)
+			for j := 0; j < ncols; j++ {
+				// the first column on which the two rows differ decides; name its type if it is not INT(64)
+				if c09Cmp(cols[j:j+1], 1, c09Row{K: [3]int64{a.K[j]}, Null: [3]bool{a.Null[j]}}, c09Row{K: [3]int64{b.K[j]}, Null: [3]bool{b.Null[j]}}) != 0 || j == ncols-1 {
+					if cols[j].Kind != "" {
+						key += " key=" + c09KeySig(cols[j:j+1])
+					}
+					break
+				}
+			}
+			ctx.Fail("L1", key, "schema.Comparator orders two rows against the declared sorting columns", map[string]any{"case": canon, "cols": fmt.Sprint(cols), "lists": lists, "list-a": fmt.Sprint(c09List(a.Inp, a.Seq)), "list-b": fmt.Sprint(c09List(b.Inp, b.Seq)), "impl": got, "declared": want})
 		}
 		p.reqs = append(p.reqs, canon)
 		p.pend = append(p.pend, func(ans string) {
@@ -2536,7 +2914,7 @@ func c09ZeroChecks(ctx *core.Ctx, r *rand.Rand, d *drv.Driver, p *c09Pending, n 
 					sb.WriteByte('-')
 				}
 				for x, row := range buf[:m] {
-					rw, derr := c09FromRow(1, row)
+					rw, derr := c09FromRow(c09L2Cols, row)
 					if derr != nil {
 						return derr
 					}
@@ -2602,7 +2980,11 @@ func c09RunLengthChecks(ctx *core.Ctx, r *rand.Rand, d *drv.Driver, p *c09Pendin
 		for j, k := range ks {
 			window[j] = c09ToRow(c09L2Cols, c09Row{K: [3]int64{k}})
 		}
-		got := parquet.VerifRunLength(window, c09ToRow(c09L2Cols, c09Row{K: [3]int64{bound}}), c09L2Compare, mx)
+		got := -1
+		func() {
+			defer func() { recover() }() // a panic leaves -1, which no prefix length equals
+			got = parquet.VerifRunLength(window, c09ToRow(c09L2Cols, c09Row{K: [3]int64{bound}}), c09L2Compare, mx)
+		}()
 		// L1 (runLength_spec): the length of the maximal prefix with compare <= max
 		want := 0
 		for want < ln && ((mx == 0 && ks[want] <= bound) || (mx == -1 && ks[want] < bound)) {
@@ -2655,7 +3037,7 @@ func c09DedupeChecks(ctx *core.Ctx, r *rand.Rand, d *drv.Driver, p *c09Pending, 
 			var m int
 			m, err = dd.ReadRows(buf)
 			for _, row := range buf[:m] {
-				rr, _ := c09FromRow(1, row)
+				rr, _ := c09FromRow(c09L2Cols, row)
 				out = append(out, rr)
 			}
 			if err != nil {
@@ -2700,7 +3082,7 @@ func c09DedupeChecks(ctx *core.Ctx, r *rand.Rand, d *drv.Driver, p *c09Pending, 
 
 // ---------------------------------------------------------------- replay of a recorded case
 
-var c09CanonRe = regexp.MustCompile(`^((?:col\(opt=\w+,desc=\w+,nf=\w+(?:,wrap=\d)?\) )+)mcols=(\d+) storage=(\w+) pagebuf=(\d+) batches=\[([\d ]*)\] dedupe=(\w+) path=(\w+) lists=(\w+) seeks=\[([\d ]*)\] (?:evolve=([01]+) )?(inner-dedupe )?(?:nest=(\S+) )?inputs=(.*)$`)
+var c09CanonRe = regexp.MustCompile(`^((?:col\(opt=\w+,desc=\w+,nf=\w+(?:,wrap=\d)?(?:,kind=[\w-]+)?\) )+)mcols=(\d+) storage=(\w+) pagebuf=(\d+) batches=\[([\d ]*)\] dedupe=(\w+) path=(\w+) lists=(\w+) seeks=\[([\d ]*)\] (?:evolve=([01]+) )?(inner-dedupe )?(?:nest=(\S+) )?inputs=(.*)$`)
 
 // c09ParseCanon rebuilds a case from its canonical text (the "case" field of a failure detail)
 func c09ParseCanon(text string) (*c09Case, error) {
@@ -2709,9 +3091,9 @@ func c09ParseCanon(text string) (*c09Case, error) {
 		return nil, errors.New("not a canonical C09 case")
 	}
 	c := &c09Case{Storage: m[3], Path: m[7], Pattern: "replay", Dedupe: m[6] == "true", Lists: m[8] == "true"}
-	for _, cm := range regexp.MustCompile(`col\(opt=(\w+),desc=(\w+),nf=(\w+)(?:,wrap=(\d))?\)`).FindAllStringSubmatch(m[1], -1) {
+	for _, cm := range regexp.MustCompile(`col\(opt=(\w+),desc=(\w+),nf=(\w+)(?:,wrap=(\d))?(?:,kind=([\w-]+))?\)`).FindAllStringSubmatch(m[1], -1) {
 		wrap, _ := strconv.Atoi(cm[4])
-		c.Cols = append(c.Cols, c09Col{Opt: cm[1] == "true", Desc: cm[2] == "true", NF: cm[3] == "true", Wrap: wrap})
+		c.Cols = append(c.Cols, c09Col{Opt: cm[1] == "true", Desc: cm[2] == "true", NF: cm[3] == "true", Wrap: wrap, Kind: cm[5]})
 	}
 	c.MCols, _ = strconv.Atoi(m[2])
 	c.PageBuf, _ = strconv.Atoi(m[4])
@@ -2763,7 +3145,7 @@ func c09ParseCanon(text string) (*c09Case, error) {
 // ---------------------------------------------------------------- entry point
 
 func RunC09(ctx *core.Ctx) {
-	ctx.SetRule("k in 0..9 sorted inputs (empty, disjoint, touching, nested, identical, staggered, random key ranges; duplicates within and across inputs; asc/desc; nullable keys nulls first/last; one to three key columns, merge by a prefix or by all; key columns as top-level leaves or as leaves of optional / required groups (a null key with its group absent or with the group present); schema evolution (the merge schema has one more optional column than some inputs, which the merge converts, in nests also the merged result of an inner merge); nests whose inner merges drop duplicated rows while the outermost keeps them (deduplicating views, also of a single row group, as inputs); optionally a repeated payload column (lists of 0-4 values) that sorts before the key columns by name; forward SeekToRow histories on the merged rows; large compound-key files whose first key column is shared by many rows across row-group and page boundaries) as sorted Buffers and as files (PageBufferSize 1..1MiB, with page index) x read batch sizes 1..300 x MergeRowGroups.Rows / MergeRowReaders / Writer.WriteRowGroup / CopyRows, with and without DropDuplicatedRows; trees of nested merges (the result of a merge as an input of another, depth <= 3, MergeRowGroups and MergeRowReaders); chunked-source MergeRowReaders runs, also with sources answering (0, nil), compared call by call with the Lean mirror; runLength and DedupeRowReader against mirror and spec; exhaustive small scope. Distinct by canonical case text, non-trivial = at least two non-empty inputs (merges) / at least two rows or batches (runLength, dedupe)")
+	ctx.SetRule("k in 0..9 sorted inputs (empty, disjoint, touching, nested, identical, staggered, random key ranges; duplicates within and across inputs; asc/desc; nullable keys nulls first/last; one to three key columns, merge by a prefix or by all; key columns of INT(64) or (one case in three; two in three of the comparator pairs) of another type each - plain INT64/INT32, INT(32), UINT(32/64), TIMESTAMP and TIME in ms/us/ns, DATE, DECIMAL on INT32/INT64/FLBA(9)/BYTE_ARRAY (minimal two's complement, lengths vary), FLOAT/DOUBLE (key 0 as -0.0 in every other row; no NaN), UUID, FLBA(16), FLBA(8), BYTE_ARRAY, STRING - with keys on both sides of zero, i.e. of the sign bit / the 0x7f-0x80 byte boundary of the encoding, ascending and descending; key columns as top-level leaves or as leaves of optional / required groups (a null key with its group absent or with the group present); schema evolution (the merge schema has one more optional column than some inputs, which the merge converts, in nests also the merged result of an inner merge); nests whose inner merges drop duplicated rows while the outermost keeps them (deduplicating views, also of a single row group, as inputs); optionally a repeated payload column (lists of 0-4 values) that sorts before the key columns by name; forward SeekToRow histories on the merged rows; large compound-key files whose first key column is shared by many rows across row-group and page boundaries) as sorted Buffers and as files (PageBufferSize 1..1MiB, with page index) x read batch sizes 1..300 x MergeRowGroups.Rows / MergeRowReaders / Writer.WriteRowGroup / CopyRows, with and without DropDuplicatedRows; trees of nested merges (the result of a merge as an input of another, depth <= 3, MergeRowGroups and MergeRowReaders); chunked-source MergeRowReaders runs, also with sources answering (0, nil), compared call by call with the Lean mirror; runLength and DedupeRowReader against mirror and spec; exhaustive small scope. Distinct by canonical case text, non-trivial = at least two non-empty inputs (merges) / at least two rows or batches (runLength, dedupe)")
 
 	// F12 as a fixed corpus-like case so that it is reported deterministically
 	fixed := []*c09Case{
